@@ -111,178 +111,181 @@ def check(ctx):
         run.error('C03.total', cde.module.name, cde.qualname, 'match result reads',
                   'no read of MatchedPorts.value found outside port_selection')
 
-    # ---- C03.explicit-first / semantics per branch -------------------------------------------------------------------------------
-    # The tests that decide a port's semantics, in evaluation order, as (text, selection, kind, semantics assigned, ok):
-    # either an if/elif chain on self.sts / self.mts, or a loop over a literal sequence of (selection, semantics) pairs
-    # whose body tests the selection and assigns the pair's semantics.
-    loops = [n for n in iter_own_nodes(match.node) if isinstance(n, ast.For) and ctx.flow.enclosing(n, (ast.For,)) is None]
-    seq: List[Tuple[str, str, str, str, bool]] = []
-    recognised = False
+    # ---- C03.explicit-first / C03.unknown: decided on the whole quotient of configurations when the code can be interpreted ------
+    semantic_done = _match_semantics(ctx, psc, match)
+    if not semantic_done:
+        # ---- C03.explicit-first / semantics per branch -------------------------------------------------------------------------------
+        # The tests that decide a port's semantics, in evaluation order, as (text, selection, kind, semantics assigned, ok):
+        # either an if/elif chain on self.sts / self.mts, or a loop over a literal sequence of (selection, semantics) pairs
+        # whose body tests the selection and assigns the pair's semantics.
+        loops = [n for n in iter_own_nodes(match.node) if isinstance(n, ast.For) and ctx.flow.enclosing(n, (ast.For,)) is None]
+        seq: List[Tuple[str, str, str, str, bool]] = []
+        recognised = False
 
-    def kind_of(t: str) -> str:
-        return 'strset' if 'match_strset' in t else 'wildcard' if 'match_wildcard' in t else '?'
+        def kind_of(t: str) -> str:
+            return 'strset' if 'match_strset' in t else 'wildcard' if 'match_wildcard' in t else '?'
 
-    def tests_of(test: ast.expr) -> List[ast.expr]:
-        return list(test.values) if isinstance(test, ast.BoolOp) and isinstance(test.op, ast.Or) else [test]
+        def tests_of(test: ast.expr) -> List[ast.expr]:
+            return list(test.values) if isinstance(test, ast.BoolOp) and isinstance(test.op, ast.Or) else [test]
 
-    def member_of(e: Optional[ast.expr]) -> Optional[str]:
-        sym = prog.resolve_expr_symbol(match.module, e) if isinstance(e, (ast.Name, ast.Attribute)) else None
-        if isinstance(sym, tuple) and sym[0] == 'enum_member' and sym[1] is rs:
-            return sym[2].lower()
-        return None
-
-    def is_none(e: Optional[ast.expr]) -> bool:
-        return e is None or (isinstance(e, ast.Constant) and e.value is None)
-
-    def decisions_stmts(stmts: List[ast.stmt], portvar: str, store: Optional[str]):
-        """Ordered [(test, outcome expr)] of an if / elif chain or of a sequence of `if T: return M`, and whether the
-        remaining case leaves the port without a semantics.  `store`: name of the dict for `d[port] = M` outcomes."""
-        out = []
-        stmts = [s_ for s_ in stmts if not (isinstance(s_, ast.Expr) and isinstance(s_.value, ast.Constant))]
-        i = 0
-        while i < len(stmts):
-            st = stmts[i]
-            if isinstance(st, ast.If):
-                node = st
-                while True:
-                    body = [b for b in node.body if not isinstance(b, (ast.Pass,))]
-                    outcome = None
-                    if len(body) == 1 and isinstance(body[0], ast.Return):
-                        outcome = body[0].value
-                    elif body and isinstance(body[0], ast.Assign) and isinstance(body[0].targets[0], ast.Subscript) and \
-                            ast.unparse(body[0].targets[0].slice) == portvar and all(isinstance(b, (ast.Assign, ast.Break)) for b in body) \
-                            and len([b for b in body if isinstance(b, ast.Assign)]) == 1:
-                        outcome = body[0].value
-                    else:
-                        return None
-                    out.append((node.test, outcome))
-                    if len(node.orelse) == 1 and isinstance(node.orelse[0], ast.If):
-                        node = node.orelse[0]
-                        continue
-                    if node.orelse:
-                        return None
-                    break
-                i += 1
-                continue
-            if isinstance(st, ast.Return):
-                return out if is_none(st.value) and i == len(stmts) - 1 else None
-            if isinstance(st, (ast.Assign, ast.AnnAssign)) and not out:
-                i += 1          # a local that the normal form left behind (e.g. the inlined rule table)
-                continue
+        def member_of(e: Optional[ast.expr]) -> Optional[str]:
+            sym = prog.resolve_expr_symbol(match.module, e) if isinstance(e, (ast.Name, ast.Attribute)) else None
+            if isinstance(sym, tuple) and sym[0] == 'enum_member' and sym[1] is rs:
+                return sym[2].lower()
             return None
-        return out
 
-    def decisions_ifexp(e: ast.expr):
-        out = []
-        while isinstance(e, ast.IfExp):
-            out.append((e.test, e.body))
-            e = e.orelse
-        return out if is_none(e) else None
+        def is_none(e: Optional[ast.expr]) -> bool:
+            return e is None or (isinstance(e, ast.Constant) and e.value is None)
 
-    port_loop = loops[0] if len(loops) == 1 else None
-    loopvar = getattr(port_loop.target, 'id', None) if port_loop is not None else None
-    decided = None          # [(test, outcome)], name of the tested port variable
-    where = match
-    if port_loop is not None and loopvar:
-        body = [b for b in port_loop.body if not (isinstance(b, ast.Expr) and isinstance(b.value, ast.Constant))]
-        # (A) the chain stores into the result directly
-        d_ = decisions_stmts(body, loopvar, None)
-        if d_ and all(member_of(o) for _t, o in d_):
-            decided = (d_, loopvar)
-        # (C) a conditional expression picks the semantics, stored when it is not None
-        elif len(body) == 2 and isinstance(body[0], ast.Assign) and isinstance(body[0].targets[0], ast.Name) and \
-                isinstance(body[1], ast.If) and not body[1].orelse:
-            d_ = decisions_ifexp(body[0].value)
-            loc = body[0].targets[0].id
-            guard = ast.unparse(body[1].test)
-            stores = [b for b in body[1].body if isinstance(b, ast.Assign) and isinstance(b.targets[0], ast.Subscript)
-                      and ast.unparse(b.targets[0].slice) == loopvar and ast.unparse(b.value) == loc]
-            if d_ and guard in (f'{loc} is not None', loc) and len(stores) == 1 and len(body[1].body) == 1:
+        def decisions_stmts(stmts: List[ast.stmt], portvar: str, store: Optional[str]):
+            """Ordered [(test, outcome expr)] of an if / elif chain or of a sequence of `if T: return M`, and whether the
+            remaining case leaves the port without a semantics.  `store`: name of the dict for `d[port] = M` outcomes."""
+            out = []
+            stmts = [s_ for s_ in stmts if not (isinstance(s_, ast.Expr) and isinstance(s_.value, ast.Constant))]
+            i = 0
+            while i < len(stmts):
+                st = stmts[i]
+                if isinstance(st, ast.If):
+                    node = st
+                    while True:
+                        body = [b for b in node.body if not isinstance(b, (ast.Pass,))]
+                        outcome = None
+                        if len(body) == 1 and isinstance(body[0], ast.Return):
+                            outcome = body[0].value
+                        elif body and isinstance(body[0], ast.Assign) and isinstance(body[0].targets[0], ast.Subscript) and \
+                                ast.unparse(body[0].targets[0].slice) == portvar and all(isinstance(b, (ast.Assign, ast.Break)) for b in body) \
+                                and len([b for b in body if isinstance(b, ast.Assign)]) == 1:
+                            outcome = body[0].value
+                        else:
+                            return None
+                        out.append((node.test, outcome))
+                        if len(node.orelse) == 1 and isinstance(node.orelse[0], ast.If):
+                            node = node.orelse[0]
+                            continue
+                        if node.orelse:
+                            return None
+                        break
+                    i += 1
+                    continue
+                if isinstance(st, ast.Return):
+                    return out if is_none(st.value) and i == len(stmts) - 1 else None
+                if isinstance(st, (ast.Assign, ast.AnnAssign)) and not out:
+                    i += 1          # a local that the normal form left behind (e.g. the inlined rule table)
+                    continue
+                return None
+            return out
+
+        def decisions_ifexp(e: ast.expr):
+            out = []
+            while isinstance(e, ast.IfExp):
+                out.append((e.test, e.body))
+                e = e.orelse
+            return out if is_none(e) else None
+
+        port_loop = loops[0] if len(loops) == 1 else None
+        loopvar = getattr(port_loop.target, 'id', None) if port_loop is not None else None
+        decided = None          # [(test, outcome)], name of the tested port variable
+        where = match
+        if port_loop is not None and loopvar:
+            body = [b for b in port_loop.body if not (isinstance(b, ast.Expr) and isinstance(b.value, ast.Constant))]
+            # (A) the chain stores into the result directly
+            d_ = decisions_stmts(body, loopvar, None)
+            if d_ and all(member_of(o) for _t, o in d_):
                 decided = (d_, loopvar)
-    if decided is None:
-        # (B) a per-port decision method: `if T: return M` ... `return None`, applied to every expected port by match()
-        expected = match.params()[1].arg if len(match.params()) > 1 else None
-        for c in iter_own_nodes(match.node):
-            if isinstance(c, ast.Call) and isinstance(c.func, ast.Attribute) and isinstance(c.func.value, ast.Name) and \
-                    c.func.value.id == 'self' and len(c.args) == 1 and isinstance(c.args[0], ast.Name):
-                m_ = prog.lookup_method(psc, c.func.attr)
-                if m_ is None or len(m_.params()) != 2:
-                    continue
-                d_ = decisions_stmts(m_.node.body, m_.params()[1].arg, None)
-                if not d_:
-                    continue
-                # the argument ranges over the expected ports and the result is kept under that port, None dropped
-                binder = None
-                p_ = prog.parent(c)
-                while p_ is not None and p_ is not match.node:
-                    if isinstance(p_, (ast.GeneratorExp, ast.ListComp, ast.DictComp)) and len(p_.generators) == 1 and \
-                            isinstance(p_.generators[0].target, ast.Name) and p_.generators[0].target.id == c.args[0].id:
-                        binder = p_.generators[0].iter
-                    if isinstance(p_, ast.For) and isinstance(p_.target, ast.Name) and p_.target.id == c.args[0].id:
-                        binder = p_.iter
-                    p_ = prog.parent(p_)
-                txt_m = ast.unparse(match.node)
-                drops_none = 'is not None' in txt_m
-                if binder is not None and ast.unparse(binder) == expected and drops_none:
-                    decided = (d_, m_.params()[1].arg)
-                    where = m_
-                    break
-    if decided is not None:
-        recognised = True
-        for test, outcome in decided[0]:
-            sem = member_of(outcome) or '?'
-            for t_ in tests_of(test):
-                txt_ = ast.unparse(t_)
-                sel = 'sts' if 'self.sts.' in txt_ else 'mts' if 'self.mts.' in txt_ else '?'
-                call = t_ if isinstance(t_, ast.Call) else None
-                ok_ = sem == sel and call is not None and isinstance(call.func, ast.Attribute) and \
-                    ast.unparse(call.func.value) == f'self.{sel}' and len(call.args) == 1 and ast.unparse(call.args[0]) == decided[1]
-                seq.append((txt_, sel, kind_of(txt_), sem, ok_))
-    if not recognised or len(seq) < 4:
-        run.error('C03.explicit-first', match.module.name, match.qualname, 'selection tests',
-                  f'the tests that assign a semantics in match() are neither an if/elif chain nor a loop over (selection, semantics) '
-                  f'pairs ({len(seq)} tests recognised)')
-    else:
-        for txt_, sel, kind, sem, ok_ in seq:
-            run.add('C03.explicit-first', match.module.name, match.qualname, txt_, ok_,
-                    f'{sel.upper()} {kind} test assigns RuntimeSemantics.{sel.upper()} to the tested port' if ok_ else
-                    f'branch `{txt_[:50]}` does not assign the semantics of the selection it tested to the tested port')
-        kinds = [k for _t, _s, k, _m, _o in seq]
-        first_wild = kinds.index('wildcard') if 'wildcard' in kinds else len(kinds)
-        ok = all(k == 'strset' for k in kinds[:first_wild]) and all(k == 'wildcard' for k in kinds[first_wild:]) \
-            and kinds.count('strset') == 2 and kinds.count('wildcard') == 2
-        order_txt = ' '.join(f'{s_}.{k}' for _t, s_, k, _m, _o in seq)
-        run.add('C03.explicit-first', match.module.name, match.qualname, 'test order ' + order_txt, ok,
-                'explicit-name tests precede the wildcard tests' if ok else
-                f'test order is [{order_txt}]: a wildcard is tested before the explicit names of the other selection - a wildcard can '
-                f'win over an explicitly named port')
-    run.floor('C03.explicit-first', 5)
+            # (C) a conditional expression picks the semantics, stored when it is not None
+            elif len(body) == 2 and isinstance(body[0], ast.Assign) and isinstance(body[0].targets[0], ast.Name) and \
+                    isinstance(body[1], ast.If) and not body[1].orelse:
+                d_ = decisions_ifexp(body[0].value)
+                loc = body[0].targets[0].id
+                guard = ast.unparse(body[1].test)
+                stores = [b for b in body[1].body if isinstance(b, ast.Assign) and isinstance(b.targets[0], ast.Subscript)
+                          and ast.unparse(b.targets[0].slice) == loopvar and ast.unparse(b.value) == loc]
+                if d_ and guard in (f'{loc} is not None', loc) and len(stores) == 1 and len(body[1].body) == 1:
+                    decided = (d_, loopvar)
+        if decided is None:
+            # (B) a per-port decision method: `if T: return M` ... `return None`, applied to every expected port by match()
+            expected = match.params()[1].arg if len(match.params()) > 1 else None
+            for c in iter_own_nodes(match.node):
+                if isinstance(c, ast.Call) and isinstance(c.func, ast.Attribute) and isinstance(c.func.value, ast.Name) and \
+                        c.func.value.id == 'self' and len(c.args) == 1 and isinstance(c.args[0], ast.Name):
+                    m_ = prog.lookup_method(psc, c.func.attr)
+                    if m_ is None or len(m_.params()) != 2:
+                        continue
+                    d_ = decisions_stmts(m_.node.body, m_.params()[1].arg, None)
+                    if not d_:
+                        continue
+                    # the argument ranges over the expected ports and the result is kept under that port, None dropped
+                    binder = None
+                    p_ = prog.parent(c)
+                    while p_ is not None and p_ is not match.node:
+                        if isinstance(p_, (ast.GeneratorExp, ast.ListComp, ast.DictComp)) and len(p_.generators) == 1 and \
+                                isinstance(p_.generators[0].target, ast.Name) and p_.generators[0].target.id == c.args[0].id:
+                            binder = p_.generators[0].iter
+                        if isinstance(p_, ast.For) and isinstance(p_.target, ast.Name) and p_.target.id == c.args[0].id:
+                            binder = p_.iter
+                        p_ = prog.parent(p_)
+                    txt_m = ast.unparse(match.node)
+                    drops_none = 'is not None' in txt_m
+                    if binder is not None and ast.unparse(binder) == expected and drops_none:
+                        decided = (d_, m_.params()[1].arg)
+                        where = m_
+                        break
+        if decided is not None:
+            recognised = True
+            for test, outcome in decided[0]:
+                sem = member_of(outcome) or '?'
+                for t_ in tests_of(test):
+                    txt_ = ast.unparse(t_)
+                    sel = 'sts' if 'self.sts.' in txt_ else 'mts' if 'self.mts.' in txt_ else '?'
+                    call = t_ if isinstance(t_, ast.Call) else None
+                    ok_ = sem == sel and call is not None and isinstance(call.func, ast.Attribute) and \
+                        ast.unparse(call.func.value) == f'self.{sel}' and len(call.args) == 1 and ast.unparse(call.args[0]) == decided[1]
+                    seq.append((txt_, sel, kind_of(txt_), sem, ok_))
+        if not recognised or len(seq) < 4:
+            run.error('C03.explicit-first', match.module.name, match.qualname, 'selection tests',
+                      f'the tests that assign a semantics in match() are neither an if/elif chain nor a loop over (selection, semantics) '
+                      f'pairs ({len(seq)} tests recognised)')
+        else:
+            for txt_, sel, kind, sem, ok_ in seq:
+                run.add('C03.explicit-first', match.module.name, match.qualname, txt_, ok_,
+                        f'{sel.upper()} {kind} test assigns RuntimeSemantics.{sel.upper()} to the tested port' if ok_ else
+                        f'branch `{txt_[:50]}` does not assign the semantics of the selection it tested to the tested port')
+            kinds = [k for _t, _s, k, _m, _o in seq]
+            first_wild = kinds.index('wildcard') if 'wildcard' in kinds else len(kinds)
+            ok = all(k == 'strset' for k in kinds[:first_wild]) and all(k == 'wildcard' for k in kinds[first_wild:]) \
+                and kinds.count('strset') == 2 and kinds.count('wildcard') == 2
+            order_txt = ' '.join(f'{s_}.{k}' for _t, s_, k, _m, _o in seq)
+            run.add('C03.explicit-first', match.module.name, match.qualname, 'test order ' + order_txt, ok,
+                    'explicit-name tests precede the wildcard tests' if ok else
+                    f'test order is [{order_txt}]: a wildcard is tested before the explicit names of the other selection - a wildcard can '
+                    f'win over an explicitly named port')
+        run.floor('C03.explicit-first', 5)
 
-    # ---- C03.unknown ------------------------------------------------------------------------------------------------------------
-    body = match.node.body
-    guards = [(k, s) for k, s in enumerate(body) if isinstance(s, ast.If) and always_raises(s.body)]
-    loop_idx = body.index(loops[0]) if loops and loops[0] in body else len(body)
-    ok, why = False, 'no rejection of configured names that the component does not have before the result is built'
-    defs = {s.targets[0].id: s.value for s in body if isinstance(s, ast.Assign) and isinstance(s.targets[0], ast.Name)}
-    expected = match.params()[1].arg if len(match.params()) > 1 else 'expected_ports'
-    for k, g in guards:
-        if k > loop_idx:
-            continue
-        tv = g.test
-        if isinstance(tv, ast.Name) and tv.id in defs:
-            d = defs[tv.id]
-            if isinstance(d, ast.BinOp) and isinstance(d.op, ast.Sub) and ast.unparse(d.right) == expected:
-                left = defs.get(d.left.id) if isinstance(d.left, ast.Name) else d.left
-                lt = ast.unparse(left) if left is not None else ''
-                both = 'self.sts.tryget_strset()' in lt and 'self.mts.tryget_strset()' in lt and \
-                    isinstance(left, ast.BinOp) and isinstance(left.op, ast.BitOr)
-                r = next((x for x in ast.walk(g) if isinstance(x, ast.Raise)), None)
-                if both and r is not None and is_adv_error(match, r):
-                    ok, why = True, 'names configured under either semantics but absent from the component are rejected ' \
-                                    'with AdvShellError before the result is built'
-                elif not both:
-                    why = 'the unknown-name check does not cover both the STS and the MTS selection'
-    run.add('C03.unknown', match.module.name, match.qualname, guards[0][1] if guards else 'unknown-name guard', ok, why)
+        # ---- C03.unknown ------------------------------------------------------------------------------------------------------------
+        body = match.node.body
+        guards = [(k, s) for k, s in enumerate(body) if isinstance(s, ast.If) and always_raises(s.body)]
+        loop_idx = body.index(loops[0]) if loops and loops[0] in body else len(body)
+        ok, why = False, 'no rejection of configured names that the component does not have before the result is built'
+        defs = {s.targets[0].id: s.value for s in body if isinstance(s, ast.Assign) and isinstance(s.targets[0], ast.Name)}
+        expected = match.params()[1].arg if len(match.params()) > 1 else 'expected_ports'
+        for k, g in guards:
+            if k > loop_idx:
+                continue
+            tv = g.test
+            if isinstance(tv, ast.Name) and tv.id in defs:
+                d = defs[tv.id]
+                if isinstance(d, ast.BinOp) and isinstance(d.op, ast.Sub) and ast.unparse(d.right) == expected:
+                    left = defs.get(d.left.id) if isinstance(d.left, ast.Name) else d.left
+                    lt = ast.unparse(left) if left is not None else ''
+                    both = 'self.sts.tryget_strset()' in lt and 'self.mts.tryget_strset()' in lt and \
+                        isinstance(left, ast.BinOp) and isinstance(left.op, ast.BitOr)
+                    r = next((x for x in ast.walk(g) if isinstance(x, ast.Raise)), None)
+                    if both and r is not None and is_adv_error(match, r):
+                        ok, why = True, 'names configured under either semantics but absent from the component are rejected ' \
+                                        'with AdvShellError before the result is built'
+                    elif not both:
+                        why = 'the unknown-name check does not cover both the STS and the MTS selection'
+        run.add('C03.unknown', match.module.name, match.qualname, guards[0][1] if guards else 'unknown-name guard', ok, why)
 
     # ---- C03.sides ----------------------------------------------------------------------------------------------------------------
     pmatch = pc.methods.get('match')
@@ -501,6 +504,180 @@ def check(ctx):
             'files can be generated before the port configuration was matched')
 
 
+def _match_semantics(ctx, psc: ClassInfo, match: FuncInfo) -> bool:
+    """PortsSemanticsCfg.match (and what it calls) interpreted (dznverif.scenario, E6) on every configuration over a universe
+    of three port names - p and q that the component has, u that it has not - and the three wildcards:
+      * sts / mts each one of the 7 non-empty name sets over {p, q, u} or ALL / REMAINING / NONE          (100 pairs)
+      * for every pair that PortsSemanticsCfg accepts, match({p, q}, label) must
+          - raise AdvShellError when u is named (a configured name the component does not have)           -> C03.unknown
+          - otherwise give each of p, q: STS if named under sts, MTS if named under mts, else the semantics of the
+            selection whose wildcard is ALL or REMAINING (sts looked at first), else no entry            -> C03.explicit-first
+    Small-universe argument: the code under interpretation touches a name only by equality, hashing, membership, type test
+    and formatting (anything else makes the interpretation undecided), so its behaviour on a port depends only on which of
+    the two sets contain that port and on the wildcards, and the unknown-name check only on whether some configured name is
+    not expected - three names realise every such case.  False when some construct is not modelled: the shape rules decide
+    then."""
+    from ..scenario import Interp, Atom, EnumV, Obj, Raised, Undecided
+    run, prog = ctx.run, ctx.prog
+    ps = prog.cls('adv_shell.port_selection', 'PortSelect')
+    pw = prog.cls('adv_shell.port_selection', 'PortWildcard')
+    rs = prog.cls('adv_shell.types', 'RuntimeSemantics')
+    adv = prog.cls('adv_shell.types', 'AdvShellError')
+    it = Interp(prog)
+    p, q, u = Atom('p'), Atom('q'), Atom('u')
+    names = [p, q, u]
+    subsets = [frozenset(x for i, x in enumerate(names) if mask >> i & 1) for mask in range(1, 8)]
+    kinds = [('set', s_) for s_ in subsets] + [('wild', w) for w in ('ALL', 'REMAINING', 'NONE')]
+
+    def label(k) -> str:
+        return '{' + ','.join(sorted(a.name for a in k[1])) + '}' if k[0] == 'set' else k[1]
+
+    def is_adv(name: str) -> bool:
+        c = prog.classes.get(name)
+        return c is not None and (c is adv or prog.is_subclass(c.fq, adv.fq))
+
+    n_cfg = n_match = 0
+    bad_first: List[str] = []
+    bad_unknown: List[str] = []
+    try:
+        for ks in kinds:
+            for km in kinds:
+                def make(k):
+                    return it.construct(ps, [set(k[1]) if k[0] == 'set' else EnumV(pw, k[1])], {})
+                sts, mts = make(ks), make(km)
+                sset = ks[1] if ks[0] == 'set' else frozenset()
+                mset = km[1] if km[0] == 'set' else frozenset()
+                must_reject = ks == km or bool(sset & mset) or \
+                    (ks == ('wild', 'ALL') and km != ('wild', 'NONE')) or (km == ('wild', 'ALL') and ks != ('wild', 'NONE'))
+                try:
+                    cfg = it.construct(psc, [sts, mts], {})
+                except Raised:
+                    continue            # what the constructor refuses is judged by C03.rejects
+                n_cfg += 1
+                if must_reject:
+                    continue            # accepted although it must be refused: C03.rejects reports it
+                sc = f'sts={label(ks)} mts={label(km)}'
+                try:
+                    res = it.call_function(match, [{p, q}, 'provides'], {}, self_val=cfg)
+                    raised = None
+                except Raised as exc:
+                    res, raised = None, exc.name
+                n_match += 1
+                if u in sset or u in mset:
+                    if raised is None:
+                        bad_unknown.append(f'{sc}: the configured name `u` is not a port of the component, yet match() returns '
+                                           f'{_show(res)}')
+                    elif not is_adv(raised):
+                        bad_unknown.append(f'{sc}: an unknown configured name raises {raised.split(".")[-1]}, not AdvShellError')
+                    continue
+                if raised is not None:
+                    bad_first.append(f'{sc}: match() raises {raised.split(".")[-1]} for a valid configuration')
+                    continue
+                if not isinstance(res, dict):
+                    raise Undecided('match() does not return a dict')
+                for x in (p, q):
+                    want = 'STS' if x in sset else 'MTS' if x in mset else \
+                        'STS' if ks[0] == 'wild' and ks[1] in ('ALL', 'REMAINING') else \
+                        'MTS' if km[0] == 'wild' and km[1] in ('ALL', 'REMAINING') else None
+                    got = next((v for k_, v in res.items() if k_ == x), None)
+                    got_txt = got.member if isinstance(got, EnumV) and got.cls is rs else None if got is None else repr(got)
+                    if got_txt != want:
+                        bad_first.append(f'{sc}: port `{x.name}` gets {got_txt}, the configuration says {want}')
+                extra = [k_ for k_ in res if k_ not in (p, q)]
+                if extra:
+                    bad_first.append(f'{sc}: the result names {extra}, which the component does not have')
+    except Undecided as exc:
+        run.remark(f'C03: match() could not be interpreted on the configuration scenarios ({exc}); the shape rules decide') \
+            if hasattr(run, 'remark') else None
+        return False
+    if n_match < 40:
+        return False
+    run.stats['match_scenarios'] = {'configurations_accepted': n_cfg, 'match_evaluated': n_match, 'interpreter_steps': it.steps}
+    run.add('C03.explicit-first', match.module.name, match.qualname, f'{n_match} configurations x ports p, q', not bad_first,
+            f'in all {n_match} accepted configurations over three names every port gets the semantics it is named under, else that of '
+            f'the catching wildcard (sts first), else none' if not bad_first else
+            f'{len(bad_first)} scenario(s) disagree with the configuration, e.g. ' + '; '.join(bad_first[:3]))
+    run.add('C03.unknown', match.module.name, match.qualname, 'configurations naming the unknown port u', not bad_unknown,
+            'a configured name that the component does not have is refused with AdvShellError in every scenario' if not bad_unknown
+            else f'{len(bad_unknown)} scenario(s), e.g. ' + '; '.join(bad_unknown[:3]))
+    return True
+
+
+def _construction_semantics(ctx, psc: ClassInfo, adv: ClassInfo):
+    """PortsSemanticsCfg(sts, mts) interpreted (E6) for all 100 pairs of selections over three names: (number of scenarios,
+    {('wrong', label): [scenario ...]}) in the vocabulary of the C03.rejects report, None when not interpretable."""
+    from ..scenario import Interp, Atom, EnumV, Raised, Undecided
+    prog = ctx.prog
+    ps = prog.cls('adv_shell.port_selection', 'PortSelect')
+    pw = prog.cls('adv_shell.port_selection', 'PortWildcard')
+    it = Interp(prog)
+    names = [Atom('p'), Atom('q'), Atom('u')]
+    subsets = [frozenset(x for i, x in enumerate(names) if mask >> i & 1) for mask in range(1, 8)]
+    kinds = [('set', s_) for s_ in subsets] + [('wild', w) for w in ('ALL', 'REMAINING', 'NONE')]
+
+    def label(k) -> str:
+        return '{' + ','.join(sorted(a.name for a in k[1])) + '}' if k[0] == 'set' else k[1]
+    problems: Dict = {}
+    n = 0
+    try:
+        for ks in kinds:
+            for km in kinds:
+                sts = it.construct(ps, [set(ks[1]) if ks[0] == 'set' else EnumV(pw, ks[1])], {})
+                mts = it.construct(ps, [set(km[1]) if km[0] == 'set' else EnumV(pw, km[1])], {})
+                sset = ks[1] if ks[0] == 'set' else frozenset()
+                mset = km[1] if km[0] == 'set' else frozenset()
+                equal = ks == km
+                overlap = bool(sset & mset)
+                all_mix = (ks == ('wild', 'ALL') and km != ('wild', 'NONE')) or (km == ('wild', 'ALL') and ks != ('wild', 'NONE'))
+                want = equal or overlap or all_mix
+                lab = 'equal selections' if equal else 'overlapping name sets' if overlap else \
+                    'ALL combined with a non-empty selection' if all_mix else 'valid combination'
+                n += 1
+                try:
+                    it.construct(psc, [sts, mts], {})
+                    got = None
+                except Raised as exc:
+                    got = exc.name
+                what = f'sts={label(ks)} mts={label(km)}'
+                c = prog.classes.get(got) if got else None
+                is_adv = c is not None and (c is adv or prog.is_subclass(c.fq, adv.fq))
+                if want and got is None:
+                    problems.setdefault(('wrong', lab), []).append(what)
+                elif want and not is_adv:
+                    problems.setdefault(('wrong', lab), []).append(f'{what} (raises {got.split(".")[-1]})')
+                elif not want and got is not None:
+                    problems.setdefault(('wrong', lab), []).append(what)
+    except Undecided:
+        return None
+    ctx.run.stats['construction_scenarios_interpreted'] = n
+    return n, problems
+
+
+def _portselect_semantics(ctx, psel: ClassInfo, adv: ClassInfo):
+    """PortSelect(set()) and PortSelect({''}) interpreted: True (refused with AdvShellError) / False (accepted) / name of
+    another exception; None when not interpretable."""
+    from ..scenario import Interp, Raised, Undecided
+    prog = ctx.prog
+    out = {}
+    try:
+        for label, val in (('empty name set', set()), ('empty port name', {''})):
+            try:
+                Interp(prog).construct(psel, [val], {})
+                out[label] = False
+            except Raised as exc:
+                c = prog.classes.get(exc.name)
+                out[label] = True if c is not None and (c is adv or prog.is_subclass(c.fq, adv.fq)) else exc.name.split('.')[-1]
+    except Undecided:
+        return None
+    return out
+
+
+def _show(v) -> str:
+    if isinstance(v, dict):
+        return '{' + ', '.join(f'{k!r}: {x!r}' for k, x in v.items()) + '}'
+    return repr(v)
+
+
 def _membership_guard(ctx, fn: FuncInfo, node: ast.AST, recv: ast.expr, key: ast.expr) -> Optional[ast.If]:
     """The `if key not in recv: raise` statement that dominates `node`."""
     for s in ctx.flow.dominating_stmts(node):
@@ -619,7 +796,10 @@ def _rejects(ctx, ex, psc: ClassInfo, pc: ClassInfo, adv_err: ClassInfo):
 
     n_sc = 0
     problems = {}
-    for ks in KINDS:
+    semantic = _construction_semantics(ctx, psc, adv_err)
+    if semantic is not None:
+        n_sc, problems = semantic
+    for ks in (KINDS if semantic is None else ()):
         for km in KINDS:
             for rel in (('equal', 'overlap', 'disjoint') if ks == km == 'SET' else ('-',)):
                 n_sc += 1
@@ -663,8 +843,15 @@ def _rejects(ctx, ex, psc: ClassInfo, pc: ClassInfo, adv_err: ClassInfo):
     psel = prog.cls('adv_shell.port_selection', 'PortSelect')
     post, gs = guards(psel)
     texts = [ast.unparse(g.test) for g in gs]
+    by_interpretation = _portselect_semantics(ctx, psel, adv_err)
     for label, pred in (('empty name set', lambda t: t.startswith('not self.value')),
                         ('empty port name', lambda t: "'' in self.value" in t)):
+        if by_interpretation is not None:
+            okk = by_interpretation[label]
+            run.add('C03.rejects', psel.module.name, 'PortSelect.__post_init__', label, okk is True,
+                    f'{label}: rejected with AdvShellError (construction interpreted)' if okk is True else
+                    f'{label} is not rejected' if okk is False else f'{label}: refused with {okk}, not AdvShellError')
+            continue
         hit = next((g for g, t in zip(gs, texts) if pred(t)), None)
         run.add('C03.rejects', psel.module.name, 'PortSelect.__post_init__', hit if hit is not None else label, hit is not None,
                 f'{label}: rejected with AdvShellError' if hit is not None else f'{label} is not rejected')
